@@ -15,6 +15,8 @@
 //	     strategy / queue size: the calls that follow belong to a new configuration epoch ("ep" in their events)
 //	| {"ev":"tick","rev":bool}  advance the clock by one tick; the timers that are due are delivered one at a
 //	     time, oldest first (rev: youngest first), each followed by a wait until everything is blocked again
+//	     with "hold":true the roll-over goroutine is held inside its critical section (where it reads the clock,
+//	     right after taking the mutex) while the remaining timers are delivered, until {"ev":"unhold"}
 //	| {"ev":"conc","ops":[enq,...]}      arrivals started together
 //	| {"ev":"race","ops":[enq,...]}      one tick, then arrivals started together, and only then the due timers (roll-over, TTLs)
 //
@@ -69,6 +71,7 @@ type Op struct {
 	Ttl  int64  `json:"ttl,omitempty"`
 	Gate bool   `json:"gate,omitempty"`
 	Rev  bool   `json:"rev,omitempty"`
+	Hold bool   `json:"hold,omitempty"`
 	// reconf: the remedy (same name) is re-applied with another strategy / queue size
 	Quota int64 `json:"quota,omitempty"`
 	W     int64 `json:"w,omitempty"`
@@ -243,7 +246,11 @@ func (rn *runner) fire(rev bool) {
 
 func (rn *runner) quiet(what string) {
 	rn.quiesce(what)
-	rn.tr.Add(vh.Ev{"ev": "quiet"})
+	held := 0
+	if rn.clk.Held() { // the roll-over goroutine is held inside its critical section
+		held = 1
+	}
+	rn.tr.Add(vh.Ev{"ev": "quiet", "held": held})
 }
 
 func (rn *runner) releaseAll() {
@@ -300,8 +307,17 @@ func main() {
 					rn.quiet("park")
 				case "tick":
 					rn.tickOnce(&now)
+					if e.Hold { // hold the roll-over goroutine inside its critical section (it reads the clock there)
+						rn.clk.HoldNow("DelayedPriorityQueue).process", "ensureWindowIsUpdated")
+					}
 					rn.fire(e.Rev)
+					if e.Hold && !rn.clk.Held() {
+						rn.clk.ReleaseNow() // the roll-over did not run in this tick
+					}
 					rn.quiet("tick")
+				case "unhold":
+					rn.clk.ReleaseNow()
+					rn.quiet("unhold")
 				case "conc":
 					for _, o := range e.Ops {
 						rn.start(o)
@@ -320,6 +336,7 @@ func main() {
 				}
 			}
 			// run the history out: let held goroutines go, then tick until every call has returned
+			rn.clk.ReleaseNow()
 			rn.releaseAll()
 			rn.quiet("release")
 			for n := 0; rn.outstanding() > 0; n++ {
